@@ -36,7 +36,7 @@ def run(ctx):
     tier = "quick" if ctx.quick else "thorough"
     ctx.assume("boundary-value hypothesis for identifier fields (lattice, not all values)")
     ctx.assume("square sizes up to the protocol maximum: EDS 1024, ODS 512")
-    ctx.assume("containers built from seeded real squares of ODS width 1, 2, 4")
+    ctx.assume("containers built from seeded real squares of ODS width 1, 2, 4%s" % ("" if ctx.quick else ", 8"))
     ctx.assume("arbitrary byte strings are sampled by seed (not exhaustive)")
 
     # 1. identifiers: byte-level specification, all invariants, cases printed
@@ -64,7 +64,8 @@ def run(ctx):
         ctx.note("model sensitivity: LegacyTruncates=TRUE violates %s as expected" % leg.violated)
 
     # 3. containers
-    rc = ctx.tlc("shwap/ShwapContainers.tla", "shwap/ShwapContainers.cfg", workers=8, timeout=600, deadlock=False)
+    rc = ctx.tlc("shwap/ShwapContainers.tla", "shwap/ShwapContainers%s.cfg" % ("" if ctx.quick else "_thorough"), workers=8,
+                 timeout=900, deadlock=False)
     ccases = [c for c in rc.printed.get("CASE", []) if isinstance(c, dict)]
     if not rc.ok or not ccases:
         ctx.inconclusive("ShwapContainers produced no cases")
